@@ -393,7 +393,10 @@ class SimCluster:
             parts = []
             for p, lg in sorted(self.topics[t].items()):
                 ld = self.leader_view(node, t, p)
-                parts.append({"error_code": 0 if ld >= 0 else LEADER_NOT_AVAILABLE, "partition": p,
+                # a partition whose leader is alive can still carry a partition-level error in the reply (a follower
+                # replica or listener is down: REPLICA_NOT_AVAILABLE 9, LISTENER_NOT_FOUND 72)
+                perr = (getattr(self, "metadata_partition_errors", None) or {}).get((t, p), 0)
+                parts.append({"error_code": (perr if ld >= 0 else LEADER_NOT_AVAILABLE), "partition": p,
                               "leader": ld, "replicas": [ld] if ld >= 0 else [], "isr": [ld] if ld >= 0 else [],
                               "offline_replicas": []})
             if self.metadata_shuffle is not None:
